@@ -6,9 +6,9 @@ export CARGO_NET_OFFLINE=true
 mkdir -p evidence replays target target-cli
 cp -f /repo/Cargo.lock harness/Cargo.lock.repo 2>/dev/null || true
 echo "[setup] building harness (tyv) against /repo/crates/typstyle-core with --cfg typstyle_verif"
-(cd harness && cargo build --release --offline 2>&1 | tail -3)
+./build.sh harness; tail -3 target/build-harness.log
 echo "[setup] building /repo's CLI into /verif/target-cli"
-cargo build --release --offline --manifest-path /repo/Cargo.toml -p typstyle --target-dir /verif/target-cli 2>&1 | tail -2
+./build.sh cli; tail -2 target/build-cli.log
 test -x target/release/tyv
 test -x target-cli/release/typstyle
 echo "[setup] ok"
